@@ -103,5 +103,10 @@ func (f *Dolist) Call(s *slip.Scope, args slip.List, depth int) slip.Object {
 	}
 	ns.UnsafeLet(sym, nil)
 
-	return ns.Eval(rform, d2)
+	// The result form is inside the nil block as well.
+	result := ns.Eval(rform, d2)
+	if rr, ok := result.(*slip.ReturnResult); ok && rr.Tag == nil {
+		return rr.Result
+	}
+	return result
 }
